@@ -35,7 +35,7 @@ ASSUMPTIONS = ['the real file system of the sandbox holds the simulated director
 BUDGET = {'quick': {'runs': 1500, 'cap_s': 60, 'wall_s': 110, 'chunk': 25},
           'thorough': {'runs': 60000, 'cap_s': 120, 'wall_s': 1500, 'chunk': 100}}
 
-TARGETS = [('path', 4), ('existing', 4), ('handle', 2), ('dirty_handle', 2), ('bytesio', 1)]
+TARGETS = [('path', 4), ('existing', 4), ('handle', 2), ('dirty_handle', 2), ('bytesio', 1), ('pathobj', 1.5), ('existing_pathobj', 1.5)]
 
 
 def gen_plan(rng, tier, index):
@@ -278,6 +278,8 @@ def _decorate(obj, plan, kind):
         # per-item arrays of different lengths: cannot form one numpy array, stored element by element
         per_col['ragged'] = [np.arange(1 + (i * 7) % 3) * 1.5 + i for i in range(n_col)]
         per_item['ragged'] = [np.arange(1 + i % 2) + 10.0 * i for i in range(n_item)]
+        if kind == 'data' and hasattr(o, 'time_descriptors'):
+            o.time_descriptors['ragged_t'] = [np.arange(1 + (k * 5) % 3) + 0.25 * k for k in range(o.n_time)]
     return o
 
 
@@ -497,8 +499,17 @@ def _do_save(ctx, pool, fs, files, objs, kind, o):
     entry = None
     handle = None
     dest = None
+    as_pathobj = False
+    if target in ('pathobj', 'existing_pathobj'):
+        # pathlib.Path targets: natively understood by h5py (the pickle writer documents str or handle only)
+        as_pathobj = ft == 'hdf5'
+        target = 'existing' if target == 'existing_pathobj' else 'path'
     if target == 'existing':
         c = [e for e in files.of(ft) if e['path'] and e.get('handle') is None]
+        if as_pathobj:
+            # for a pathlib.Path the library has no existence check of its own: the refusal comes from h5py finding the
+            # object's keys already present, so only files that hold an acknowledged object qualify
+            c = [e for e in c if e['twin'] is not None]
         if not c:
             target = 'path'
         else:
@@ -528,13 +539,18 @@ def _do_save(ctx, pool, fs, files, objs, kind, o):
         files.entries.append(entry)
     if fault and (isinstance(dest, str) or ft == 'hdf5'):
         fs.pending_fault = fault
+    if as_pathobj and isinstance(dest, str):
+        import pathlib
+        dest_arg = pathlib.Path(dest)
+    else:
+        dest_arg = dest
     old_twin = entry['twin']
     fired_before = sum(ctx.faults.values())
     fs.tick('save', target=fs.rel(dest) if isinstance(dest, str) else '<%s>' % target, ft=ft, overwrite=ow, fault=o['fault'], obj=slot.sid)
     twin_before = rec_any(obj)
     raised = None
     try:
-        obj.save(dest, file_type=ft, overwrite=ow)
+        obj.save(dest_arg, file_type=ft, overwrite=ow)
     except Exception as ex:
         raised = ex
         raised.__traceback__ = None      # do not keep the failed call's frames (and its h5py File object) alive
@@ -550,9 +566,9 @@ def _do_save(ctx, pool, fs, files, objs, kind, o):
         ctx.violation('fs_model.save_mutates', f'save:{kind}:{ft}:mutates-object', f'save({ft}) changed the in-memory object: {d2[0][1]}')
     pool.sweep('save', args=[slot.sid])
     existing_path = target == 'existing'
-    sig = (kind, slot.op, target, ft, ow, o['fault'][0] if o['fault'] else None)
+    sig = (kind, slot.op, target + ('-pathlib' if as_pathobj else ''), ft, ow, o['fault'][0] if o['fault'] else None)
     if raised is not None:
-        if existing_path and ft == 'hdf5' and not ow and not fault_fired and isinstance(raised, ValueError):
+        if existing_path and ft == 'hdf5' and not ow and not fault_fired and (isinstance(raised, ValueError) or as_pathobj):
             # (3) refused: the path must still hold the old object
             ctx.probe('overwrite_refused')
             ctx.behaviour('save-refused', *sig)
